@@ -1,7 +1,7 @@
 #!/bin/bash
 # tools/seedtest.sh <patch.diff> <C01> [C04 ...] : apply a seeded change to /repo, run the named quick checks, undo.
 set -u
-PATCH="$1"; shift
+PATCH="$(realpath "$1")"; shift
 cd /repo || exit 2
 git diff --quiet || { echo "repo not clean"; exit 2; }
 git apply "$PATCH" || { echo "patch does not apply"; exit 2; }
